@@ -257,11 +257,26 @@ def r2(ctx, retsets):
     ctx.touch(fn)
     rm = fn.calls("tommy_list_remove_existing")
     ctx.floor("C15.R2", len(rm), 1)
-    for c in rm:
-        guards = [(vf.expr(fn, g), t) for g, t, br in es.guards_of(fn, c)]
-        last = any(g[0] == "icmp" and ((g[1] == "eq" and not t) or (g[1] == "ne" and t) or (g[1] in ("ugt",) and t)) and g[3] == ("c", 1) and
-                   g[2][0] == "load" and vf.last_field(g[2][1]) == "rtr_mgr_config.len" for g, t in guards)
-        ctx.check(last, "C15.R2", "remove_group:not-the-last", c.loc(), "removal is dominated by 'number of groups != 1'", key="C15.R2:remove:last")
+    # evaluated per number of groups (wherever the test sits and however the exits are merged): with one group nothing is unlinked
+    # and the call fails, with more the unlinking is reachable
+    reach_rm = {}
+    for ngroups in (1, 2, 5):
+        hit = []
+
+        def values_n(pe, ngroups=ngroups):
+            return ngroups if vf.last_field(pe) == "rtr_mgr_config.len" else None
+
+        def cl_n(inst, E, st, hit=hit):
+            if inst.op == "call" and inst.callee == "tommy_list_remove_existing":
+                hit.append(1)
+                return ["unlinked"]
+            return None
+        outs_n, _f = es.count_effects(fn, pdb, cl_n, retsets, values=values_n, cap=96)
+        reach_rm[ngroups] = (bool(hit), sorted({str(flow.av_single(o["ret"])) for o in outs_n}))
+    last = (not reach_rm[1][0]) and "0" not in reach_rm[1][1] and reach_rm[2][0] and reach_rm[5][0]
+    ctx.check(last, "C15.R2", "remove_group:not-the-last", rm[0].loc(),
+              "with one group: unlinking reachable %s, returns %s; with two / five groups: unlinking reachable %s / %s" % (
+                  reach_rm[1][0], reach_rm[1][1], reach_rm[2][0], reach_rm[5][0]), key="C15.R2:remove:last")
 
     def oracle2(inst, pred, a, b, E):
         for x, y, sw in ((a, b, False), (b, a, True)):
@@ -379,8 +394,33 @@ def r4(ctx, retsets):
                 bad.append((lu0, name))
     ctx.check(not bad, "C15.R4", "status_is_synced-table", "%s:%d" % (fn.relfile, fn.line),
               "%d (last_update==0?, socket state) cells" % ncell if not bad else "wrong for cells %s" % bad[:4], key="C15.R4:synced-table")
-    il = [L for L in es.index_loops(fn) if L["init"] == "#0" and L["bound"][0] == "load" and vf.last_field(L["bound"][1]) == "rtr_mgr_group.sockets_len"]
-    ctx.check(bool(il), "C15.R4", "status_is_synced:all-sockets", "%s:%d" % (fn.relfile, fn.line), "every socket of the group is examined", key="C15.R4:synced-loop")
+    # evaluated on a group of three fine sockets whose pointer array sits at address 5000: the slots read must be 0, 1 and 2 -
+    # whether the walk uses an index, a moving pointer or a count of what is left
+    BASE, NS = 5000, 3
+    slots = set()
+
+    def values3(pe):
+        f = vf.last_field(pe)
+        if f == "rtr_mgr_group.sockets":
+            return BASE
+        if f == "rtr_mgr_group.sockets_len":
+            return NS
+        if f == "rtr_socket.last_update":
+            return 1700000000
+        if f == "rtr_socket.state":
+            return sorted(okstates)[0]
+        return None
+
+    def cl3(inst, E, st):
+        if inst.op == "load":
+            a = flow.av_single(E.val(inst["ptr"]))
+            if a is not None and BASE <= a < BASE + 8 * 64 and (a - BASE) % 8 == 0:
+                slots.add((a - BASE) // 8)
+        return None
+    outs3, _f3 = es.count_effects(fn, pdb, cl3, None, values=values3, cap=64)
+    rets3 = {flow.av_single(o["ret"]) for o in outs3}
+    ctx.check(slots == set(range(NS)) and rets3 == {1}, "C15.R4", "status_is_synced:all-sockets", "%s:%d" % (fn.relfile, fn.line),
+              "group of %d fine sockets: slots read %s, answer %s (expected all of them, true)" % (NS, sorted(slots), sorted(rets3, key=str)), key="C15.R4:synced-loop")
 
 
 def _ret_false_inside(outs, fn):
